@@ -179,6 +179,85 @@ def run(ctx):
     ctx.oblige("oracle:status-list-revoked-credential-is-rejected(impl)", revoked_accepted == 0 and n_status > 0 or bool(ctx.replay),
                f"{revoked_accepted} accepted of {n_status}")
 
+    # ---------------- direct "valid only if" oracle, independent of the Lean model: every document the implementation
+    # reports valid must satisfy the property's first sentence w.r.t. the DID history / trust / revocation state the
+    # harness set up and the signature facts it measured with the real cryptography.
+    state = {"hist": {}, "trust": set(), "revoked": set()}
+    voi_bad = 0
+    voi_checked = 0
+
+    def key_authorised(did_, at_ms, kid, sig_keys):
+        vs = [v for v in state["hist"].get(did_, []) if v["from"] <= at_ms]
+        if not vs or vs[-1]["deact"]:
+            return False
+        return any(a[0] == kid and a[1] in (sig_keys or []) for a in vs[-1]["assertion"])
+
+    def vc_reasons(d, op, check_sig):
+        at_ms = op["at"]
+        why = []
+        if d["issued"] > at_ms + 5000 or (d.get("expires") is not None and at_ms - 5000 > d["expires"]):
+            why.append("outside-validity-window")
+        if d.get("id") in state["revoked"]:
+            why.append("revoked")
+        if not op["allowUntrusted"] and any(t != "VerifiableCredential" and (t, d["issuer"]) not in state["trust"] for t in d.get("types") or []):
+            why.append("untrusted-issuer")
+        if check_sig:
+            is_jwt = (d.get("fmt") or "").startswith("jwt")
+            kid = ((d.get("jwt") or {}).get("kid") if is_jwt else (d.get("proof") or {}).get("vm")) or ""
+            if is_jwt and kid == "":
+                kid = d["issuer"] + ("#0" if d["issuer"].startswith("did:jwk:") else "")
+            issuer_did = (op.get("dids") or {}).get(d["issuer"])
+            if issuer_did is None or (op.get("urls") or {}).get(kid) != issuer_did:
+                why.append("key-id-not-of-issuer")
+            elif not key_authorised(issuer_did, at_ms, kid, d.get("sigKeys")):
+                why.append("not-signed-by-an-assertion-key-of-the-issuer-at-validation-time")
+            if is_jwt:
+                j = d.get("jwt") or {}
+                if (j.get("exp") is not None and at_ms // 1000 >= j["exp"] // 1000 and j["exp"] // 1000 != 0) or \
+                        (j.get("nbf") is not None and at_ms // 1000 < j["nbf"] // 1000):
+                    why.append("jwt-outside-window")
+            else:
+                pr = d.get("proof") or {}
+                if pr.get("created", 0) > at_ms + 5000 or (pr.get("expires") is not None and pr["expires"] + 5000 < at_ms):
+                    why.append("proof-outside-window")
+        return why
+
+    for i, op in enumerate(ops):
+        k = op.get("op")
+        if k == "reset":
+            state = {"hist": {}, "trust": set(), "revoked": set()}
+        elif k == "world":
+            state["hist"] = op["hist"]
+        elif k == "trust":
+            (state["trust"].add if op["add"] else state["trust"].discard)((op["type"], op["issuer"]))
+        elif k == "revoke" and op.get("registered"):
+            state["revoked"].add(op["id"])
+        elif k in ("vc", "vp") and impl[i].startswith("ok") and op.get("at") is not None and op.get("doc"):
+            d = op["doc"]
+            voi_checked += 1
+            if k == "vc":
+                why = vc_reasons(d, op, op["checkSig"])
+            else:
+                why = []
+                is_jwt = (d.get("fmt") or "").startswith("jwt")
+                kid = ((d.get("jwt") or {}).get("kid") if is_jwt else (d.get("proof") or {}).get("vm")) or ""
+                signer = (op.get("urls") or {}).get(kid)
+                if not signer or not key_authorised(signer, op["at"], kid, d.get("sigKeys")):
+                    why.append("presentation-not-signed-by-an-assertion-key-of-the-signer")
+                for c in d.get("vcs") or []:
+                    if any(sj != signer for sj in (c.get("subjects") or [None])):
+                        why.append("signer-is-not-subject-of-every-credential")
+                    if op["checkSig"]:   # verifyVCs
+                        self_attested = d.get("holder") is not None and d.get("holder") == c.get("issuer") and not c.get("nProofs")
+                        why += ["vc:" + w for w in vc_reasons(c, op, not self_attested)]
+                    if d.get("holder") not in (None, signer):
+                        why.append("holder-is-not-signer")
+            if why:
+                voi_bad += 1
+                ctx.violation("C01:reported-valid-but:" + why[0] + ":" + k, f"{op['label']} is reported valid although: {', '.join(sorted(set(why)))}",
+                              "valid-only-if.jsonl", replay_text(i))
+    ctx.oblige("oracle:valid-only-if(impl, against harness state + measured signatures)", voi_bad == 0, f"{voi_bad} of {voi_checked} accepted documents")
+
     kinds = Counter()
     verdicts = Counter()
     residue = Counter()
